@@ -129,11 +129,81 @@ def check_ties(ctx, n, cases=None):
     return len(cases), {'tie-scripts': len(cases), 'tie-orders-distinguishable': differ, 'tie-first-order-observed': first, 'tie-second-order-observed': second}
 
 
+# ------------------------------------------------------------------------------- real threads
+LCO = {'lD': 'LDisabled', 'lC': 'LConnecting', 'lN': 'LConnected', 'lS': 'LShutdown'}
+ALLOWED = {'Ok', 'Exception', 'BadResponse', 'Timeout', 'NoConnection', 'Io', 'BadFrame', 'Shutdown'}
+
+
+def gen_mt(r, n_mixed, n_hammer):
+    # runs that reproduced finding F11 (a request pushed into the queue after the dropped receiver had drained it) before the fix;
+    # it is a race, so these are starting points, not deterministic replays
+    lines = ['seed=402327326291393348 mode=hammer-runtime k=12 n=0 cap=8 mt=0', 'seed=7 mode=hammer-command k=6 n=0 cap=64 mt=0',
+             'seed=11 mode=hammer-abort k=8 n=0 cap=1024 mt=0']
+    for _ in range(n_mixed):
+        m = r.choice(['shutdown', 'drop', 'abort', 'rtshutdown', 'rtshutdown', 'late'])
+        lines.append(f'seed={r.randrange(1, 2**60)} mode={m} k={r.choice([1, 2, 4, 8])} n={r.choice([5, 20, 60])} '
+                     f'cap={r.choice([1, 2, 4, 16])} mt={r.choice([0, 0, 1, 2])}')
+    for _ in range(n_hammer):
+        lines.append(f'seed={r.randrange(1, 2**60)} mode=hammer-{r.choice(["runtime", "abort", "command"])} k={r.choice([2, 4, 8, 12])} n=0 '
+                     f'cap={r.choice([1, 2, 8, 64, 1024])} mt=0')
+    return lines
+
+
+def mt_family(ctx, lines):
+    """REAL concurrency (multi-thread runtime, OS threads): no model of the interleaving; the interleaving-independent clauses
+    are judged: every submitted request completes exactly once, with an error class the property allows, nothing stays
+    pending once the task is gone (while handles are still alive!), the task ends, the listener trace is a legal path"""
+    out = ctx.harness('mtstress', lines, shards=8, timeout=2400)
+    traces = sorted(set(o.split('|')[1] for o in out if o.count('|') == 3))
+    verdict = dict(zip(traces, ctx.coq_eval(['Base.Show', 'Spec.Lifecycle'], 'fun l : list cstate => show_bool (legal l && shutdown_last l)',
+                                            ['[' + '; '.join(LCO.get(x[:2]) or (('LWaitFailed ' if x[:2] == 'lF' else 'LWaitDisc ') + x[2:]) for x in t.split()) + ']' for t in traces],
+                                            case_type='list cstate', per_shard=300))) if traces else {}
+    bad = 0
+    stats = {'mt-runs': len(lines), 'mt-requests': 0}
+    for line, o in zip(lines, out):
+        why = []
+        parts = o.split('|')
+        if len(parts) != 4:
+            why.append('C10.panic-or-garbled-output')
+        else:
+            kv = dict(x.split('=', 1) for x in parts[0].split())
+            stats['mt-requests'] += int(kv['submitted'])
+            mode = parts[3]
+            stats['mt-mode:' + mode] = stats.get('mt-mode:' + mode, 0) + 1
+            for c in kv['classes'].split(','):
+                if c:
+                    name, cnt = c.split(':')
+                    stats['mt-result:' + name] = stats.get('mt-result:' + name, 0) + int(cnt)
+                    if name not in ALLOWED:
+                        why.append('C10.error-class-not-allowed:' + name)
+            if kv['multi'] != '-':
+                why.append('C10.completed-twice')
+            if kv['zero'] != '-' or kv.get('pending_after_3s', '0') != '0':
+                why.append('C10.request-left-pending-after-the-task-is-gone')
+            if parts[2] != 'task=ended':
+                why.append('C13.task-did-not-end')
+            killed = mode in ('abort', 'rtshutdown', 'hammer-abort', 'hammer-runtime', 'hammer-command')
+            if verdict.get(parts[1]) != '1' and not (killed and parts[1] == ''):      # killed before its first notification
+                why.append('C13.illegal-listener-path')
+            if mode in ('shutdown', 'drop', 'late') and not parts[1].endswith('lS'):     # (hammer-command: the runtime is shut down 300 us later, possibly before the command is taken)
+                why.append('C13.task-ended-without-a-Shutdown-notification')
+        if why:
+            bad += 1
+            if bad <= 2:
+                ctx.violation(why[0], f'real threads [{line}]: {", ".join(why)}; observed {o[:400]}', {'mt_cases': [line], 'observed': o, 'why': why})
+    ctx.oblige('real-concurrency:exactly-once-class-legal-path-nothing-pending', bad == 0, f'{bad} of {len(lines)} runs')
+    return stats
+
+
 def run(ctx):
     if not cl.prepare(ctx):
         return
     r = ctx.rng
     exhaustive = False
+    if ctx.replay and 'mt_cases' in ctx.replay:
+        # a race: repeat the recorded run (different interleavings each time)
+        mt_family(ctx, ctx.replay['mt_cases'] * 400)
+        return
     if ctx.replay and 'cases' in ctx.replay and any(s[0] == '~' for j in ctx.replay['cases'] for s in j['script']):
         check_ties(ctx, 0, [cl.case_from_json(j) for j in ctx.replay['cases']])
         return
@@ -178,13 +248,15 @@ def run(ctx):
     if not ctx.replay:
         n_tie, tie_cls = check_ties(ctx, 200 if ctx.quick() else 2000)
         classes.update(tie_cls)
+    if not ctx.replay:
+        classes.update(mt_family(ctx, gen_mt(ctx.rng, 60, 400) if ctx.quick() else gen_mt(ctx.rng, 1500, 6000)))
     classes['requests-submitted'] = n_req
     classes['requests-completed'] = n_done
     need = ['result:Shutdown', 'result:NoConnection', 'result:Timeout', 'result:Io', 'result:BadFrame', 'result:Ok', 'step:A', 'step:H', 'step:X', 'style:x', 'style:c', 'task-done']
     if not ctx.replay and any(classes.get(k, 0) < 5 for k in need):
         ctx.oblige('generator-reaches-expected-classes', False, str(classes))
     ctx.coverage.update({
-        'evaluations': len(cases) + n_tie,
+        'evaluations': len(cases) + n_tie + classes.get('mt-runs', 0),
         'distinct_nontrivial': len(set(cl.to_line(c) for c, i in zip(cases, impl) if '|c' in i)),
         'rule': 'event scripts over the whole alphabet (directed scenarios first, then random scripts of up to 14 steps steered by a replica of the model'
                 + ('; plus EVERY script up to length 6 over each of the reduced alphabets ' + ' / '.join(' '.join(a) for a in ALPHABETS) + ' following `E CO` (queue capacity 1, limit 1; F* = a frame with the outstanding tx id, T* = a tick to the next timer instant)' if exhaustive else '')
